@@ -19,6 +19,9 @@ pub struct TypeCfg {
     pub empty: bool,
     /// method names are identifiers (possibly keywords of the targets), whatever odd_labels says
     pub ident_methods: bool,
+    /// now and then wrap a generated type in 60..140 nested opt/vec constructors, so
+    /// that the type table has more than 64 (and more than 127) entries
+    pub wide_table: bool,
 }
 
 pub const DEF_NAMES: &[&str] = &["A", "B", "C", "D", "E", "F", "G", "H", "List", "Tree", "node", "t", "my_type", "T1"];
@@ -34,6 +37,7 @@ impl Default for TypeCfg {
             def_names: DEF_NAMES,
             empty: true,
             ident_methods: false,
+            wide_table: false,
         }
     }
 }
@@ -225,4 +229,13 @@ pub fn gen_env(e: &mut Ent, cfg: &TypeCfg) -> (Env, Scope) {
         env.defs.push((sc.defs[i].name.clone(), body));
     }
     (env, sc)
+}
+
+/// Wrap `t` in `n` nested `opt`/`vec` constructors (each a distinct table entry).
+pub fn deep_wrap(e: &mut Ent, t: Ty, n: usize) -> Ty {
+    let mut t = t;
+    for _ in 0..n {
+        t = if e.ratio(3, 4) { Ty::Opt(Box::new(t)) } else { Ty::Vec(Box::new(t)) };
+    }
+    t
 }
